@@ -17,10 +17,12 @@ import numpy as np
 from harness.common import enc, kids, tag, is_err, err_code
 
 PROP = 'C08'
-GENERATORS = []
+GENERATORS = ['gen_rotate']
 TRUSTED = [
     'hand model coq/C08/Model.v of glue/core/roi.py (Rectangular/Elliptical/Circular/CircularAnnulus/Range/Polygonal/Categorical/'
-    'Projected3d ROI: contains, center, move_to, rotate_to, RectangularROI.to_polygon) over Q, tied to the code by correspondence only',
+    'Projected3d ROI: contains, center, move_to, rotate_to, rotate_by, RectangularROI.to_polygon) over Q, tied to the code by correspondence only '
+    '(except the angle logic of Roi.rotate_by and of the rotate_to methods, which tools/gen/gen_rotate.py translates from the source: coq/C08/GenLink.v)',
+    'tools/gen/gen_rotate.py: the translation of angle expressions (+, -, the None default, % (2 pi) in the skip test) into operations on rotation pairs',
     'matplotlib Path.contains_points is taken to be the even-odd rule off the boundary (validated against the exact oracle on every polygon case)',
     'branch selection by floating isclose tests on theta is reproduced by the harness (own copy of the tests) and handed to the model as a flag',
     'float trigonometry: theta = atan2(s, c) for an exact rational point (c, s) of the unit circle; the deviation of cos/sin(theta) from (c, s) '
@@ -242,6 +244,33 @@ class Truth:
             return 2
         return 1 if self.inside(p) else 0
 
+    def extent(self):
+        """the region's own size (independent of where it is)"""
+        k = self.kind
+        if k == 'poly':
+            xs = [v[0] for v in self.vs]
+            ys = [v[1] for v in self.vs]
+            return max(max(xs) - min(xs), max(ys) - min(ys))
+        if k == 'range':
+            return abs(self.hi - self.lo)
+        if k == 'rect':
+            return max(abs(self.w), abs(self.h))
+        if k == 'ell':
+            return 2 * max(self.rx, self.ry)
+        return 2 * (self.r if k == 'circ' else self.ro)
+
+    def conditioning(self):
+        """how much a perturbation of the vertices can move the centroid, relative to the perturbation: n * extent^2 / (2 |area|) for a
+        polygon (None when the area vanishes), 1 for the classes whose centre is a stored parameter"""
+        if self.kind != 'poly':
+            return F(1)
+        vs = self.vs
+        n = len(vs)
+        a2 = abs(sum(vs[i][0] * vs[(i + 1) % n][1] - vs[i][1] * vs[(i + 1) % n][0] for i in range(n)))
+        if a2 == 0:
+            return None
+        return max(F(1), n * self.extent() ** 2 / a2)
+
     def scale(self):
         k = self.kind
         if k == 'poly':
@@ -339,7 +368,7 @@ def restore(roi):
     return GlueUnSerializer.loads(GlueSerializer(roi).dumps()).object('__main__')
 
 
-def run_impl(spec, ops):
+def run_impl(spec, ops, mag=False):
     """apply ops to the real ROI and, in lockstep, to the oracle's exact region.
     `copy` and `ser` (GlueSerializer round trip) are operations inside the sequence: the clone joins the list of tracked objects,
     every later operation is applied to ALL of them, and after every step their public attributes (parameters, theta, centre) must be
@@ -351,12 +380,16 @@ def run_impl(spec, ops):
     tracks = [build(spec)]
     truth = Truth.of_spec(spec)
     cur_ang = spec_angle(spec)          # absolute angle spec for rect / ellipse
+    cur_rot = ang_cs(cur_ang)           # exact (cos, sin) of the rectangle's / ellipse's position angle
+    cur_theta = ang_theta(cur_ang) or 0.0   # ... and the float theta the code should hold
     poly_theta = 0.0                    # PolygonalROI.theta as the code should track it
     poly_rot = (F(1), F(0))
     kind = spec[0]
     mops = []
-    exact = kind == 'range' or (kind == 'rect' and ang_exact(cur_ang))
+    exact = (kind == 'range' or (kind == 'rect' and ang_exact(cur_ang))) and not mag
+    maxmag = truth.scale()              # largest coordinate magnitude the region has had: float rounding errors made there persist
     centres = []
+    rot_centres = []
     problems = []
     for step, o in enumerate(ops):
         roi = tracks[-1]
@@ -370,9 +403,10 @@ def run_impl(spec, ops):
                     t_.move_to(tx, ty)
             after = center_pair(roi, spec)
             truth.translate(F(tx) - F(before[0]), F(ty) - F(before[1]))
-            centres.append((before, (tx, ty), after))
+            maxmag = max(maxmag, truth.scale())
+            centres.append((before, (tx, ty), after, float(maxmag), None if truth.conditioning() is None else float(truth.conditioning()), step))
             mops.append((1, [q(F(tx)), q(F(ty))]))
-            if kind == 'poly':
+            if kind == 'poly' or mag:
                 exact = False
         elif o[0] == 'rot':
             ang = o[1]
@@ -383,6 +417,7 @@ def run_impl(spec, ops):
                 c, s = ang_cs(ang)
                 truth.set_angle(c, s)
                 cur_ang = ang
+                cur_rot, cur_theta = (c, s), (0.0 if th is None else th)
                 mops.append((6, [branch_of(th), 0, q(c), q(s)]))
                 exact = exact and ang_exact(ang)
             else:
@@ -393,11 +428,37 @@ def run_impl(spec, ops):
                 for t_ in tracks:
                     t_.rotate_to(th)
                 truth.rotate_about((F(before[0]), F(before[1])), d[0], d[1])
+                rot_centres.append((before, center_pair(roi, spec)))
                 poly_theta = 0 if th is None else th
                 poly_rot = new_rot
                 # absolute angle: the model keeps theta itself and turns by the difference
                 mops.append((6, [0, 1 if poly_skip(dth) else 0, q(new_rot[0]), q(new_rot[1])]))
                 exact = False
+        elif o[0] == 'rotby':
+            # Roi.rotate_by(dtheta): the region turns by dtheta about its centre, whatever the accumulated position angle is
+            ang = o[1]
+            dth = ang_theta(ang) or 0.0
+            d = ang_cs(ang)
+            if kind in ('rect', 'ell'):
+                for t_ in tracks:
+                    t_.rotate_by(dth)
+                cur_theta = cur_theta + dth            # the float the code should now hold (own copy of theta + dtheta)
+                cur_rot = compose(cur_rot, d)
+                cur_ang = None
+                truth.set_angle(*cur_rot)
+                mops.append((7, [branch_of(cur_theta), 0, q(d[0]), q(d[1])]))
+                exact = exact and ang_exact(ang)
+            else:
+                before = center_pair(roi, spec)
+                th_new = poly_theta + dth
+                for t_ in tracks:
+                    t_.rotate_by(dth)
+                truth.rotate_about((F(before[0]), F(before[1])), d[0], d[1])
+                mops.append((7, [0, 1 if poly_skip(th_new - poly_theta) else 0, q(d[0]), q(d[1])]))
+                poly_theta = th_new
+                poly_rot = compose(poly_rot, d)
+                exact = False
+                rot_centres.append((before, center_pair(roi, spec)))
         elif o[0] == 'topoly':
             tracks = [R_.PolygonalROI(*t_.to_polygon()) for t_ in tracks]
             truth = truth.rect_polygon()
@@ -438,11 +499,14 @@ def run_impl(spec, ops):
     info = Evaluated()
     info.mops = mops
     info.centres = centres
-    info.exact = exact
+    info.exact = exact and not mag
     info.final_kind = kind
     info.tracks = tracks
     info.problems = problems
-    info.theta_cs = poly_rot if kind == 'poly' else (ang_cs(cur_ang) if kind in ('rect', 'ell') else None)
+    info.rot_centres = rot_centres
+    info.mag = mag
+    info.maxmag = max(maxmag, truth.scale())
+    info.theta_cs = poly_rot if kind == 'poly' else (cur_rot if kind in ('rect', 'ell') else None)
     return tracks[-1], truth, info
 
 
@@ -491,7 +555,21 @@ def pts_exact(P):
     return [(F(float(x)), F(float(y))) for x, y in P]
 
 
+MAG_C = 32                     # float operations (a few per vertex per operation, <= 6 operations) whose rounding errors the band absorbs
+ULP = F(1, 2 ** 52)
+
+
+def mag_tol(info, truth, cond=None):
+    """scale-aware bound on what float rounding of a well-conditioned algorithm can do to a coordinate: c * eps * (|pos| + size) [* conditioning]"""
+    t = MAG_C * ULP * (info.maxmag + truth.extent())
+    return t if cond is None else t * cond
+
+
 def case_eps(truth, P, info):
+    if getattr(info, 'mag', False):
+        # large-magnitude stream: the band follows the rounding error of the coordinates (eps * |pos|), not 2^-30 * |pos|
+        big = max(info.maxmag, F(float(np.max(np.abs(P)))) if len(P) else F(0))
+        return MAG_C * ULP * big + truth.extent() * EPS_SCALE
     if info.exact:
         return F(0)
     sc = truth.scale()
@@ -644,14 +722,16 @@ class Batch:
         self.stream = stream
         self.items = []
 
-    def add(self, spec, ops, P, sub=None, extra=None):
+    def add(self, spec, ops, P, sub=None, extra=None, extra_count=None, mag=False, layouts=True):
         """runs implementation + oracle now, queues the model line"""
         R = self.R
         case = {'stream': self.stream, 'roi': jspec(spec), 'ops': jspec(ops), 'points': P.tolist()}
         if sub is not None:
             case['sub'] = sub
+        if mag:
+            case['mag'] = True
         try:
-            roi, truth, info = run_impl(spec, ops)
+            roi, truth, info = run_impl(spec, ops, mag=mag)
             impl = np.asarray(roi.contains(P[:, 0], P[:, 1])).astype(bool)
             ctr = center_pair(roi)
         except Exception as e:  # the implementation must not raise on a defined region
@@ -666,12 +746,13 @@ class Batch:
         bad = [i for i, (v, b) in enumerate(zip(orc, impl)) if v != 2 and bool(b) != (v == 1)]
         if bad:
             i = bad[0]
-            small = dict(case, points=[P[i].tolist()], ops=jspec(shrink_ops(spec, ops, P[i])))
+            small = dict(case, points=[P[i].tolist()], ops=jspec(shrink_ops(spec, ops, P[i], mag=mag)))
             R.fail('oracle', small, {'why': 'contains() differs from the exact geometry away from the boundary', 'point': P[i].tolist(),
                                     'contains': bool(impl[i]), 'truth_inside': orc[i] == 1, 'eps': float(eps), 'n_bad': len(bad)},
                    key=None)
         # memory layout of the point arrays
-        lp = layout_problems(lambda a_: roi.contains(a_[0], a_[1]), [P[:, 0], P[:, 1]], impl)
+        # (the streams added in round 4 skip this: memory layout is independent of rotation histories / magnitudes and is covered by every other stream)
+        lp = layout_problems(lambda a_: roi.contains(a_[0], a_[1]), [P[:, 0], P[:, 1]], impl) if layouts else []
         if lp:
             R.fail('oracle', dict(case, layout=lp[0]), {'why': 'contains() depends on the memory layout of the point arrays (compared element by element '
                                                        'with the C-ordered result)', 'layouts': lp[:6]}, key=None)
@@ -689,18 +770,38 @@ class Batch:
                         'original_contains': bool(other[i]), 'copy_contains': bool(impl[i])}, key=None)
                 break
         # centre placement after a move
-        for before, target, after in info.centres:
+        for before, target, after, mmag, cond, step in info.centres:
             tol = 1e-9 * float(max(truth.scale(), 1))
+            if mag:
+                if cond is None:
+                    continue
+                # relative, scale-aware: c * eps * (|pos| + size) * conditioning -- NOT eps * pos^2 / size
+                tol = float(MAG_C * ULP) * (mmag + float(truth.extent())) * cond
             if spec[0] == 'range':
                 t_ = target[0] if spec[1] == 'x' else target[1]
                 tgt = (t_, t_)
             else:
                 tgt = target
-            if abs(after[0] - tgt[0]) > tol or abs(after[1] - tgt[1]) > tol:
-                R.fail('oracle', case, {'why': 'center() after move_to is not the requested centre', 'target': target, 'center': after}, key=None)
+            if not (abs(after[0] - tgt[0]) <= tol and abs(after[1] - tgt[1]) <= tol):
+                R.fail('oracle', dict(case, ops=jspec(ops[:step + 1]), points=P[:1].tolist()) if mag else case,
+                       {'why': 'center() after move_to is not the requested centre', 'target': target, 'center': after, 'tol': tol,
+                        'off_by': [after[0] - tgt[0], after[1] - tgt[1]]}, key=None)
+                break
+        # rotating about the centre keeps the reported centre (polygons: the centre is computed from the turned vertices)
+        for before, after in info.rot_centres:
+            tol = max(1e-9 * float(max(truth.scale(), 1)), poly_center_tol(truth) if truth.kind == 'poly' else 0.0)
+            if mag:
+                cond = truth.conditioning()
+                if cond is None:
+                    continue
+                tol = float(mag_tol(info, truth, cond))
+            if abs(after[0] - before[0]) > tol or abs(after[1] - before[1]) > tol:
+                R.fail('oracle', dict(case, points=P[:1].tolist()), {'why': 'center() changed under a rotation about the centre', 'before': before, 'after': after,
+                                                                    'tol': tol}, key=None)
+                break
         line = enc((1, [q(eps), spec_tree(spec), (0, info.mops), (0, [(0, [q(a), q(b)]) for a, b in PE])]))
         th_impl = getattr(roi, 'theta', None)
-        extra = (info.theta_cs, None if th_impl is None else float(th_impl))
+        extra = (info.theta_cs, None if th_impl is None else float(th_impl), extra_count or {}, info.maxmag)
         self.items.append((case, line, impl, orc, ctr, eps, truth, spec, ops, extra))
         return roi, truth, info, impl, orc, eps
 
@@ -714,7 +815,7 @@ class Batch:
             nin = sum(1 for v in orc if v == 1)
             R.count((self.stream, repr(case['roi']), repr(case['ops']), len(orc), hash(tuple(map(tuple, case['points'])))),
                     nontrivial=(0 < nin < len(orc)), stream=self.stream, kind=case['roi'][0], n_ops=len(ops),
-                    ops='+'.join(o_[0] for o_ in ops) or 'none', compared_fraction='%d%%' % (10 * int(10 * ncmp / max(1, len(orc)))))
+                    ops='+'.join(o_[0] for o_ in ops) or 'none', compared_fraction='%d%%' % (10 * int(10 * ncmp / max(1, len(orc)))), **extra[2])
             if is_err(o) or tag(o) != 0:
                 R.fail('correspondence', case, {'why': 'model returned an error', 'model': o})
                 continue
@@ -735,6 +836,9 @@ class Batch:
             tol = 1e-9 * float(max(truth.scale(), 1))
             if spec[0] == 'poly' or any(o_[0] == 'topoly' for o_ in ops):
                 tol = max(tol, poly_center_tol(truth))
+            if case.get('mag'):
+                cond = truth.conditioning()
+                tol = float('inf') if cond is None else float(MAG_C * ULP * (extra[3] + truth.extent()) * cond)
             # position angle: model (cos, sin) vs the implementation's theta attribute
             if extra is not None and extra[0] is not None and extra[1] is not None and len(kids(o)) > 2:
                 mth = kids(o)[2]
@@ -809,9 +913,9 @@ def shrink_problem(spec, ops):
     return ops
 
 
-def point_violates(spec, ops, p):
+def point_violates(spec, ops, p, mag=False):
     try:
-        roi, truth, info = run_impl(spec, ops)
+        roi, truth, info = run_impl(spec, ops, mag=mag)
         P = np.array([p], dtype=float)
         impl = bool(np.asarray(roi.contains(P[:, 0], P[:, 1]))[0])
     except Exception:
@@ -821,7 +925,7 @@ def point_violates(spec, ops, p):
     return v != 2 and impl != (v == 1)
 
 
-def shrink_ops(spec, ops, p):
+def shrink_ops(spec, ops, p, mag=False):
     ops = list(ops)
     changed = True
     while changed:
@@ -829,7 +933,7 @@ def shrink_ops(spec, ops, p):
         for i in range(len(ops)):
             cand = ops[:i] + ops[i + 1:]
             try:
-                if point_violates(spec, cand, p):
+                if point_violates(spec, cand, p, mag=mag):
                     ops = cand
                     changed = True
                     break
@@ -929,7 +1033,8 @@ def random_ops(rng, spec, maxlen):
         if u < 0.5 or kind in ('circ', 'ann', 'range'):
             ops.append(('move', dy(rng, -8, 8, 4), dy(rng, -8, 8, 4)))
         elif u < 0.9:
-            ops.append(('rot', random_angle(rng)))
+            # absolute (rotate_to) or incremental (rotate_by): the accumulated angle of a sequence leaves (-pi, pi) often
+            ops.append(('rot' if u < 0.7 else 'rotby', random_angle(rng)))
         elif kind == 'rect':
             ops.append(('topoly',))
             kind = 'poly'
@@ -1010,7 +1115,7 @@ def stream_small(R):
 def ops_valid(spec, ops):
     kind = spec[0]
     for o in ops:
-        if o[0] == 'rot' and kind in ('circ', 'ann', 'range'):
+        if o[0] in ('rot', 'rotby') and kind in ('circ', 'ann', 'range'):
             return False
         if o[0] == 'topoly':
             if kind != 'rect':
@@ -1176,6 +1281,249 @@ def stream_shapes(R):
             R.fail('oracle', dict(case, points=P.tolist()), {'why': 'result depends on array shape / copy / save-restore / polygon approximation', 'problems': probs})
     R.stream('shapes', cases=done, exhaustive=False, bound='per case: 4 reshapes, 2 broadcast views, strided view, scalar input, copy(), GlueSerializer round trip '
              '(+ move_to of the restored region), to_polygon() of round shapes and ranges against the exact region outside the sagitta band')
+
+
+# increments for rotate_by histories: +-pi/2, pi, 3pi/2, Pythagorean angles 0.927, 2.214, -0.644, -2.06, pi + 1.2e-10, 0.927 + 2 pi, 2.214 - 2 pi
+BY_STEPS = [('mult', 1, 0), ('pyth', -3, 4, 5), ('pyth', 4, -3, 5), ('mult', 2, 0), ('pyth', 3, 4, 5), ('pyth', -8, -15, 17),
+            ('mult', -1, 0), ('mult', 3, 0), ('mult', 2, 34), ('pyth', 3, 4, 5, 1), ('pyth', -3, 4, 5, -1)]
+# regions without a half-turn symmetry (L shape, scalene triangle, closed numpy quadrilateral), and the two classes that keep theta as a parameter
+BY_REGIONS = [
+    ('poly', ((F(0), F(0)), (F(3), F(0)), (F(3), F(1)), (F(1), F(1)), (F(1), F(2)), (F(0), F(2)))),
+    ('poly', ((F(-1), F(-1)), (F(3), F(-1, 2)), (F(1, 4), F(2)))),
+    ('poly', ((F(0), F(0)), (F(4), F(0)), (F(5, 2), F(1)), (F(1, 2), F(3)), (F(0), F(0))), 'numpy'),
+    ('rect', F(-1), F(3), F(0), F(1), None),
+    ('rect', F(-1), F(1), F(-1, 2), F(1, 2), ('pyth', 5, 12, 13)),
+    ('ell', F(1), F(0), F(3), F(1), ('mult', 1, 0)),
+]
+
+
+def acc_angle(spec, ops):
+    """the accumulated position angle (float) at every step of a history, as the property means it: rotate_to sets it, rotate_by adds to it"""
+    th = ang_theta(spec_angle(spec)) or 0.0
+    out = []
+    for o in ops:
+        if o[0] == 'rot':
+            th = ang_theta(o[1]) or 0.0
+        elif o[0] == 'rotby':
+            th = th + (ang_theta(o[1]) or 0.0)
+        elif o[0] in ('topoly',) or (o[0] == 'ser' and spec[0] == 'poly'):
+            th = 0.0
+        out.append(th)
+    return out
+
+
+KNOWN_PROJ_BY = 'projected-rotate_by-ignores-wrapped-theta'
+
+
+def projected_rotate_by(R, rng):
+    """Projected3dROI.rotate_by(d) must turn the wrapped region by d about its centre.  The wrapper has no theta attribute, so Roi.rotate_by reads 0.0
+    and calls rotate_to(d): right while the wrapped region's position angle is 0, wrong otherwise (known finding, keyed ONLY when the wrapped angle was
+    non-zero AND the result is exactly the region rotate_to(d) gives)."""
+    from glue.core import roi as R_
+    n = 0
+    for ir, spec in enumerate(BY_REGIONS):
+        for pre in ((), (('rot', ('pyth', 3, 4, 5)),), (('rotby', ('mult', 2, 0)),)):
+            for a in BY_STEPS:
+                case = {'stream': 'rotate_histories', 'projected': True, 'roi': jspec(spec), 'ops': jspec(pre + (('rotby', a),))}
+                try:
+                    roi, _, info0 = run_impl(spec, pre)
+                    _, truth, info = run_impl(spec, pre + (('rotby', a),))
+                    _, truth_to, _ = run_impl(spec, pre + (('rot', a),))
+                    proj = R_.Projected3dROI(roi_2d=roi, projection_matrix=np.eye(4))
+                    proj.rotate_by(ang_theta(a))
+                    P = make_points(truth, rng, 12, 6, truth.scale() * EPS_SCALE)
+                    got = np.asarray(proj.contains(P[:, 0], P[:, 1])).astype(bool)
+                except Exception as e:
+                    R.fail('oracle', case, {'why': 'implementation raised %s: %s' % (type(e).__name__, e)}, key=None)
+                    continue
+                eps = case_eps(truth, P, info)
+                PE = pts_exact(P)
+                orc = [truth.verdict(p, eps) for p in PE]
+                bad = [i for i, (v, b) in enumerate(zip(orc, got)) if v != 2 and bool(b) != (v == 1)]
+                n += 1
+                R.count(('projby', ir, repr(pre), repr(a)), nontrivial=bool(got.any() and not got.all()), stream='rotate_histories', kind='projected+' + spec[0],
+                        wrapped_theta_zero=info0.theta_cs in (None, (F(1), F(0))))
+                if bad:
+                    # the known defect: the wrapped angle was non-zero and the region is exactly what rotate_to(d) leaves
+                    orc_to = [truth_to.verdict(p, eps) for p in PE]
+                    as_rotate_to = all(v == 2 or bool(b) == (v == 1) for v, b in zip(orc_to, got))
+                    th0 = info0.theta_cs
+                    known = th0 is not None and th0 != (F(1), F(0)) and as_rotate_to
+                    i = bad[0]
+                    R.fail('oracle', dict(case, points=[P[i].tolist()]),
+                           {'why': 'Projected3dROI.rotate_by(d) did not turn the wrapped region by d about its centre', 'contains': bool(got[i]),
+                            'truth_inside': orc[i] == 1, 'acts_like_rotate_to': as_rotate_to, 'n_bad': len(bad)}, key=KNOWN_PROJ_BY if known else None)
+    return n
+
+
+def stream_rotate_histories(R):
+    """histories of incremental rotations: rotate_by / rotate_to steps whose accumulated angle leaves (-pi, pi) and (-2pi, 2pi), on regions
+    without half-turn symmetry (and on rectangles / ellipses).  Every rotate_by(d) must turn the region by d about its centre (exact oracle:
+    the polygon's vertices are turned by the exact rational rotation; rectangle / ellipse: the exact angle is the composition)."""
+    B = Batch(R, 'rotate_histories')
+    rng = R.subrng('rothist')
+    seqs = []
+    n2, n3 = R.pick(6, 8), R.pick(4, 6)
+    for L, alphabet in ((1, BY_STEPS), (2, BY_STEPS[:n2]), (3, BY_STEPS[:n3])):
+        for sq_ in itertools.product(alphabet, repeat=L):
+            seqs.append(tuple(('rotby', a) for a in sq_))
+    # the same increment repeated: 0.927 x 8 = 7.4 > 2 pi, -2.06 x 4 = -8.2 < -2 pi, pi/2 x 9, pi x 3
+    for a, k in [(('pyth', 3, 4, 5), 4), (('pyth', 3, 4, 5), 8), (('pyth', -8, -15, 17), 4), (('mult', 1, 0), 5), (('mult', 1, 0), 9), (('mult', 2, 0), 3),
+                 (('mult', -1, 0), 6), (('pyth', 4, -3, 5), 6), (('pyth', 4, -3, 5), 11)]:
+        seqs.append(tuple(('rotby', a) for _ in range(k)))
+    # mixed with absolute rotations, moves, copies and save / restore
+    A, Bq, Cq = ('pyth', 3, 4, 5), ('pyth', -3, 4, 5), ('mult', 2, 0)
+    seqs += [(('rot', Bq), ('rotby', A)), (('rot', Bq), ('rotby', Bq)), (('rot', Cq), ('rotby', A), ('rotby', A)), (('rot', ('mult', 3, 0)), ('rotby', Cq)),
+             (('rot', ('pyth', 3, 4, 5, 1)), ('rotby', A)), (('rot', ('mult', 5, 0)), ('rotby', ('mult', -1, 0)), ('rotby', A)),
+             (('rotby', Bq), ('copy',), ('rotby', Bq)), (('rotby', Bq), ('ser',), ('rotby', Bq)), (('rotby', Bq), ('move', F(5, 2), F(-1)), ('rotby', Bq)),
+             (('rotby', Bq), ('rotby', Bq), ('rot', None)), (('rotby', Cq), ('rotby', A), ('rot', A)), (('rotby', Bq), ('rotby', Bq), ('rot', ('mult', 0, 0))),
+             (('move', F(-3), F(2)), ('rotby', Cq), ('rotby', A), ('move', F(0), F(0))), (('rotby', ('mult', 4, 0)), ('rotby', A)),
+             (('rotby', ('mult', 0, 41)), ('rotby', Bq), ('rotby', Bq)), (('topoly',), ('rotby', Bq), ('rotby', Bq)),
+             (('rot', A), ('topoly',), ('rotby', Bq), ('rotby', A))]
+    n = 0
+    for ir, spec in enumerate(BY_REGIONS):
+        for isq, ops in enumerate(seqs):
+            if not ops_valid(spec, ops):
+                continue
+            if len(ops) == 3 and all(o[0] == 'rotby' for o in ops) and len(set(ops)) > 1:
+                # length-3 products: all of them for the L shape and the triangle; the closed quadrilateral gets every other one; rectangles /
+                # ellipses keep theta as a parameter (theorem rotate_by_collapse): none in the quick tier, a third otherwise
+                if (ir == 2 and isq % 2) or (spec[0] != 'poly' and (R.quick() or (isq + ir) % 3)):
+                    continue
+            try:
+                _, truth, _ = run_impl(spec, ops)
+            except Exception:
+                truth = Truth.of_spec(spec)
+            P = make_points(truth, rng, R.pick(12, 20), R.pick(6, 10), truth.scale() * EPS_SCALE)
+            acc = acc_angle(spec, ops)
+            wraps = max([0] + [int(abs(a) // math.pi) for a in acc])
+            B.add(spec, ops, P, extra_count={'max_half_turns_passed': min(wraps, 4)}, layouts=False)
+            n += 1
+    B.finish()
+    n += projected_rotate_by(R, rng)
+    R.stream('rotate_histories', cases=n, exhaustive=True,
+             bound='6 regions (L shape, scalene triangle, closed numpy quadrilateral: no half-turn symmetry; 2 rectangles, ellipse) x all rotate_by histories of '
+                   'length <= 3 over %d / %d increments (11 for length 1: +-pi/2, pi, 3pi/2, Pythagorean 0.93, 2.21, -0.64, -2.06, pi+1.2e-10, 0.93+2pi, 2.21-2pi), '
+                   'one increment repeated up to 11 times (accumulated angle up to 4.5 pi and below -2 pi), 17 histories mixing rotate_to / move / copy / '
+                   'save-restore / to_polygon with rotate_by; Projected3dROI.rotate_by on wrapped regions' % (n2, n3))
+
+
+
+# ------------------------------------------------------------------ large magnitudes
+# irregular shapes whose centroid differs from the mean of their vertices (unit-ish size, concave, >= 4 vertices)
+MAG_SHAPES = {
+    'hexagon': [(0, 0), (2, 0), (2, 1), (F(9, 8), 1), (1, F(5, 16)), (0, F(3, 2))],
+    'L': [(0, 0), (4, 0), (4, 1), (1, 1), (1, 3), (0, 3)],
+    'arrow': [(0, 0), (2, 1), (4, 0), (2, 4)],
+    'comb': [(0, 0), (5, 0), (5, 3), (4, 3), (4, 1), (3, 1), (3, 3), (2, 3), (2, 1), (1, 1), (1, 3), (0, 3)],
+    'kite': [(0, 0), (3, F(1, 2)), (F(7, 2), 3), (F(1, 2), 1)],
+    'star': POLYS['star'],
+    'quad': [(0, 0), (4, 0), (F(5, 2), 1), (F(1, 2), 3)],
+}
+
+
+def mag_pos(rng):
+    """a position with |coordinate| between 1e3 and 1e9 on at least one axis (the other may be small)"""
+    def one(big):
+        if big:
+            return rng.choice([-1, 1]) * rng.uniform(1, 10) * 10.0 ** rng.randrange(3, 10)
+        return rng.choice([0.0, rng.uniform(-8, 8), rng.uniform(-1e3, 1e3)])
+    u = rng.random()
+    return (one(True), one(u < 0.6)) if rng.random() < 0.5 else (one(u < 0.6), one(True))
+
+
+def fl(x):
+    return F(float(x))
+
+
+def mag_spec(rng, far):
+    """a region of size 2^j (j in -10 .. 10) at a position of magnitude up to 1e9 (far) or near the origin; every parameter is the exact
+    value of the float handed to the implementation.  position / size <= 2^36 so that the rounding of the coordinates stays below size / 2^10."""
+    while True:
+        size = 2.0 ** rng.choice([-10, -7, -3, 0, 0, 3, 7, 10])
+        px, py = mag_pos(rng) if far else (rng.uniform(-4, 4) * size, rng.uniform(-4, 4) * size)
+        if max(abs(px), abs(py)) <= size * 2.0 ** 36:
+            break
+    k = rng.choice(['poly', 'poly', 'poly', 'poly', 'rect', 'ell', 'circ', 'ann', 'range'])
+    if k == 'poly':
+        if rng.random() < 0.7:
+            name = rng.choice(sorted(MAG_SHAPES))
+            shape = [(F(x), F(y)) for x, y in MAG_SHAPES[name]]
+            if rng.random() < 0.3:
+                shape = shape[::-1]
+        else:
+            while True:
+                shape = list(random_poly(rng, rng.randrange(4, 10), False)[1])
+                t = Truth('poly', vs=shape)
+                if t.conditioning() is not None and t.conditioning() <= 8 * len(shape):
+                    break
+        vs = [(fl(px + size * float(x)), fl(py + size * float(y))) for x, y in shape]
+        if rng.random() < 0.4:
+            vs = vs + [vs[0]]
+        return ('poly', tuple(vs)) + (('numpy',) if rng.random() < 0.3 else ())
+    a, b = size * rng.choice([0.5, 1, 1.5, 3]), size * rng.choice([0.25, 1, 2])
+    if k == 'rect':
+        x0, y0 = fl(px), fl(py)
+        return ('rect', x0, fl(float(x0) + a), y0, fl(float(y0) + b), random_angle(rng))
+    if k == 'ell':
+        return ('ell', fl(px), fl(py), fl(a), fl(b), random_angle(rng))
+    if k == 'circ':
+        return ('circ', fl(px), fl(py), fl(a))
+    if k == 'ann':
+        return ('ann', fl(px), fl(py), fl(a), fl(a + b))
+    lo = fl(px)
+    return ('range', rng.choice('xy'), lo, fl(float(lo) + a))
+
+
+def mag_ops(rng, spec, far):
+    """<= 4 operations; a region that starts near the origin is first moved far away, so that every later operation (a second move_to,
+    rotate_to / rotate_by about the centre, copy) works on coordinates much larger than the region"""
+    ops = []
+    kind = spec[0]
+    if not far:
+        ops.append(('move',) + tuple(fl(v) for v in mag_pos(rng)))
+    for _ in range(rng.randrange(1, 4)):
+        u = rng.random()
+        if u < 0.45 or (kind in ('circ', 'ann', 'range') and u < 0.9):
+            t = mag_pos(rng) if rng.random() < 0.7 else (rng.uniform(-8, 8), rng.uniform(-8, 8))
+            ops.append(('move', fl(t[0]), fl(t[1])))
+        elif u < 0.9:
+            a, b, h = rng.choice(PYTH[:14])
+            ops.append((rng.choice(['rot', 'rotby']), ('pyth', a, b, h)))
+        else:
+            ops.append(('copy',))
+    return tuple(ops)
+
+
+def stream_magnitude(R):
+    """regions much smaller than their distance from the origin (positions 1e3 .. 1e9, sizes 2^-10 .. 2^10): move_to must put the reported
+    centre at the target and contains must follow, up to the float rounding of the coordinates -- c * eps * (|pos| + size) times the
+    conditioning of the centroid --, not up to eps * pos^2 / size (what a shoelace sum over unshifted coordinates would give)."""
+    B = Batch(R, 'magnitude')
+    n = R.pick(160, 1500)
+    done = 0
+    for i in range(n):
+        rng = R.subrng('magnitude', i)
+        far = rng.random() < 0.5
+        spec = mag_spec(rng, far)
+        ops = mag_ops(rng, spec, far)
+        if not ops_valid(spec, ops):
+            ops = tuple(o for o in ops if o[0] not in ('rot', 'rotby'))
+        try:
+            _, truth, info = run_impl(spec, ops, mag=True)
+        except Exception:
+            truth, info = Truth.of_spec(spec), None
+        eps = case_eps(truth, np.zeros((0, 2)), info) if info is not None else truth.scale() * EPS_SCALE
+        P = make_points(truth, rng, R.pick(12, 20), R.pick(8, 12), eps)
+        ratio = float(truth.scale() / truth.extent()) if truth.extent() else 0.0
+        B.add(spec, ops, P, sub=i, mag=True, extra_count={'log10_pos_over_size': int(math.log10(max(ratio, 1.0)))}, layouts=False)
+        done += 1
+    B.finish()
+    R.stream('magnitude', cases=done, exhaustive=False,
+             bound='positions 1e3 .. 1e9 (either sign, one or both axes) x sizes 2^-10 .. 2^10 with position / size <= 2^36; irregular / concave polygons with >= 4 '
+                   'vertices (7 named shapes, random star-shaped ones; open / closed / numpy), rectangles, ellipses, circles, annuli, ranges; <= 4 operations '
+                   '(move_to far / near, rotate_to, rotate_by, copy); comparison band and centre tolerance = 32 eps (|pos| + size) [x conditioning of the centroid]')
+
 
 
 def matrices(rng):
@@ -1531,15 +1879,15 @@ def run(R):
     R.rule = ('a case = (region class + dyadic parameters + angle, operation sequence, float point set); non-trivial when the compared points contain both '
               'inside and outside points; distinct = distinct (region, operations, points) tuples. Every point is classified by the exact oracle and by '
               'the Coq model as inside / outside / within eps of the boundary; only the first two are compared with contains()')
-    stream_malformed(R)
-    stream_categorical(R)
-    stream_small(R)
-    stream_copy_sequences(R)
-    stream_random(R)
-    stream_shapes(R)
-    stream_projected(R)
-    stream_projected_structured(R)
-    stream_subset_state(R)
+    import os
+    import sys
+    import time
+    for fn in (stream_malformed, stream_categorical, stream_small, stream_copy_sequences, stream_rotate_histories, stream_magnitude, stream_random,
+               stream_shapes, stream_projected, stream_projected_structured, stream_subset_state):
+        t0 = time.time()
+        fn(R)
+        if os.environ.get('VERIF_TIMING'):
+            sys.stderr.write('%-28s %6.1f s\n' % (fn.__name__, time.time() - t0))
     R.sample({'roi': ['rect', -1.0, 3.0, 0.5, 2.5, ['pyth', 3, 4, 5]], 'ops': [['move', 2.5, -0.75], ['rot', ['mult', 2, 34]]], 'points': [[0.25, 1.0]]})
     R.sample({'roi': ['poly', [[0, 0], [4, 0], [4, 1], [1, 1], [1, 3], [0, 3], [0, 0]], 'numpy'], 'ops': [['move', 0.0, 0.0], ['rot', ['mult', 2, 0]]]})
 
@@ -1547,7 +1895,7 @@ def run(R):
 def replay(R, case):
     st = case.get('stream', '')
     out = {'case': case}
-    if 'roi' in case and 'points' in case and st in ('small', 'random', 'shapes', 'copy_sequences'):
+    if 'roi' in case and 'points' in case and st in ('small', 'random', 'shapes', 'copy_sequences', 'rotate_histories', 'magnitude'):
         spec = unjspec(case['roi'])
         if spec[0] == 'poly':
             spec = ('poly', tuple(tuple(v) for v in spec[1])) + tuple(spec[2:])
@@ -1555,7 +1903,7 @@ def replay(R, case):
         P = np.array(case['points'], dtype=float).reshape(-1, 2)
         C = Collect()
         B = Batch(C, st)
-        res = B.add(spec, ops, P)
+        res = B.add(spec, ops, P, mag=bool(case.get('mag')))
         orc_fail = [f for f in C.failures if f['kind'] == 'oracle']
         out['oracle_failures'] = [f['detail'] for f in orc_fail]
         out['violates'] = bool(orc_fail)
